@@ -172,6 +172,10 @@ func applyOps(orig proj, ops []ScriptOp, s *v1beta1.TrafficRoutingStrategy, cana
 			case "append":
 				t[last] = append(append([]interface{}{}, asList(t[last])...), map[string]interface{}{"name": canary, "weight": float64(w)})
 			}
+		case "setAnnoOnMatch":
+			if len(s.Matches) > 0 {
+				out.Annotations[op.Key] = strconv.Itoa(len(s.Matches))
+			}
 		case "setAnno", "setLabel":
 			v := strconv.Itoa(w)
 			if op.Value == "service" {
